@@ -163,12 +163,14 @@ def command(plan, d):
     return cmd
 
 
-def run_plan(plan, scratch, timeout=60, keep=False):
+def run_plan(plan, scratch, timeout=None, keep=False):
     """-> dict(rc, log (str), err (str), timed_out, cmd). Raises dst.Infra when the harness itself is missing/broken."""
     sg = sg_root()
     if not os.path.exists(sg + '/lib/simgrid/smpimain') or not os.path.exists(mpisim_bin()):
         raise dst.Infra('smpimain or mpisim missing (%s, %s)' % (sg, mpisim_bin()))
     built = build(plan)
+    if timeout is None:
+        timeout = float(os.environ.get('VERIF_MPISIM_TIMEOUT', 60))
     _RUN_SEQ[0] += 1
     d = '%s/m%d' % (scratch, _RUN_SEQ[0])
     os.makedirs(d, exist_ok=True)
@@ -180,16 +182,86 @@ def run_plan(plan, scratch, timeout=60, keep=False):
         with open(d + '/hf', 'w') as f:
             f.write(''.join('n%d\n' % h for h in plan['hostmap']))
         cmd = command(plan, d)
-        rc, out, err, to = dst.run_proc(cmd, timeout=timeout, env={'LD_LIBRARY_PATH': sg + '/lib'}, cwd=d)
+        rc, out, err, to = run_watch(cmd, d, timeout, {'LD_LIBRARY_PATH': sg + '/lib'})
     finally:
         if not keep:
             shutil.rmtree(d, ignore_errors=True)
     err = err.decode(errors='replace')
+    if rc == 127 or 'error while loading shared libraries' in err or 'cannot open shared object' in err:
+        raise dst.Infra('loader failure (library being rebuilt?): ' + err[-300:])
     if rc == 97 or 'MPISIM-FATAL' in err:
         raise dst.Infra('interpreter rejected the plan: ' + err[-600:])
-    if to:
-        raise dst.Infra('mpisim run timed out after %ds' % timeout)
+    if to == 'wall':
+        raise dst.Infra('mpisim run exceeded the wall budget of %ds' % timeout)
     return dict(rc=rc, log=out.decode(errors='replace'), err=err, cmd=cmd, built=built)
+
+
+HANG_CPU = 3.0
+
+
+def _cpu_seconds(pid):
+    try:
+        with open('/proc/%d/stat' % pid) as f:
+            st = f.read().rsplit(')', 1)[1].split()
+        return (int(st[11]) + int(st[12])) / float(os.sysconf('SC_CLK_TCK'))
+    except (OSError, IndexError, ValueError):
+        return None
+
+
+def run_watch(cmd, d, timeout, env):
+    """run the simulation with stdout/stderr in files; a run that burns HANG_CPU seconds of CPU without writing a
+    log line is a livelock (MPI_Probe polls forever in simulated time, so SimGrid's deadlock detector never fires):
+    it is killed and reported as ('hang'). Returns (rc, out, err, to) with to in (False, 'hang', 'wall')."""
+    import signal
+    import subprocess
+    import time
+    e = dict(os.environ)
+    e.update(env)
+    fo = open(d + '/out.log', 'wb')
+    fe = open(d + '/err.log', 'wb')
+    try:
+        p = subprocess.Popen(cmd, stdin=subprocess.DEVNULL, stdout=fo, stderr=fe, env=e, cwd=d, start_new_session=True)
+    except OSError as ex:
+        fo.close()
+        fe.close()
+        raise dst.Infra('cannot start smpimain (build in progress?): %s' % ex)
+    t0 = time.time()
+    last_size = -1
+    cpu_mark = 0.0
+    to = False
+    delay = 0.002
+    while True:
+        rc = p.poll()
+        if rc is not None:
+            break
+        time.sleep(delay)
+        delay = min(delay * 1.5, 0.1)
+        now = time.time()
+        if now - t0 > 0.5:
+            size = os.fstat(fo.fileno()).st_size
+            cpu = _cpu_seconds(p.pid)
+            if size != last_size:
+                last_size = size
+                cpu_mark = cpu if cpu is not None else 0.0
+            elif cpu is not None and cpu - cpu_mark > HANG_CPU:
+                to = 'hang'
+            if now - t0 > timeout:
+                to = 'wall'
+            if to:
+                try:
+                    os.killpg(p.pid, signal.SIGKILL)
+                except ProcessLookupError:
+                    pass
+                p.wait()
+                rc = -9
+                break
+    fo.close()
+    fe.close()
+    with open(d + '/out.log', 'rb') as f:
+        out = f.read()
+    with open(d + '/err.log', 'rb') as f:
+        err = f.read()
+    return rc, out, err, to
 
 
 class Line:
@@ -244,6 +316,8 @@ def classify_exit(res, np_, per):
     if res['rc'] == 0 and fin:
         return None
     err = res['err']
+    if res['rc'] == -9:
+        return ('hang', 'simulation livelocked: no rank progressed while simulated time kept advancing (MPI_Probe polling)')
     if 'Deadlock' in err or 'deadlock' in err:
         return ('deadlock', _first_err(err))
     return ('abort', 'exit status %s: %s' % (res['rc'], _first_err(err)))
@@ -489,36 +563,35 @@ def build(plan):
     # ---- entries per rank
     ent = [[] for _ in range(np_)]
     have = set(B.msgs)
-    for pos, it in enumerate(plan['items']):
-        k = it['k']
-        if k == 'msg':
-            ent[it['s']].append(['S', it, pos])
-            ent[it['d']].append(['R', it, pos])
-        elif k == 'barrier':
-            for r in range(np_):
-                if comm[r].get(it['c']) is not None:
-                    ent[r].append(['B', it, pos])
-        elif k == 'coll':
-            for r in range(np_):
-                ent[r].append(['C', it, pos])
-        elif k == 'pack':
-            ent[it['rank']].append(['P', it, pos])
-    # comm instance ids are needed per message: evaluate 'coll' steps lazily in a first pass over items
-    comm_at = {}     # (msg id) -> instance id
+    comm_at = {}     # msg id -> communicator instance id
+    B.mgroup = {}
     cs = [dict(c) for c in comm]
     gs = [dict(g) for g in grp]
     coll_ops = {}
+    parts = {}
     for pos, it in enumerate(plan['items']):
-        if it['k'] == 'coll':
-            coll_ops[pos] = ref_setup_step(np_, cs, gs, it['step'])
-        elif it['k'] == 'msg':
+        k = it['k']
+        if k == 'msg':
             g1, g2 = cs[it['s']].get(it['c']), cs[it['d']].get(it['c'])
             if g1 is None or g2 is None or g1 != g2:
                 raise ValueError('message %s on a communicator its ends do not share' % it['id'])
             comm_at[it['id']] = 'c%d:%s' % (it['c'], ','.join(map(str, g1)))
-            it_g = g1
-            B.msgs[it['id']] = it
-            B.__dict__.setdefault('mgroup', {})[it['id']] = g1
+            B.mgroup[it['id']] = g1
+            ent[it['s']].append(['S', it, pos])
+            ent[it['d']].append(['R', it, pos])
+        elif k == 'barrier':
+            parts[pos] = [r for r in range(np_) if cs[r].get(it['c']) is not None]
+            for r in parts[pos]:
+                ent[r].append(['B', it, pos])
+        elif k == 'coll':
+            coll_ops[pos] = ref_setup_step(np_, cs, gs, it['step'])
+            parts[pos] = [r for r in range(np_) if coll_ops[pos][r]]
+            for r in parts[pos]:
+                ent[r].append(['C', it, pos])
+        elif k == 'pack':
+            if not 0 <= it['rank'] < np_:
+                raise ValueError('pack on missing rank')
+            ent[it['rank']].append(['P', it, pos])
     B.comm_at = comm_at
     B.final_comm = cs
     for r in range(np_):
@@ -561,6 +634,11 @@ def build(plan):
                     el[i + 1][1]['id'] == e[1]['srf'] and e[1]['sm'] in (0, 4) and
                     el[i + 1][1].get('rm') in ('recv', 'irecv') and el[i + 1][1].get('rdy') is None):
                 out.append(['SR', e[1], e[2], e[3], el[i + 1][1]])
+                i += 2
+            elif (e[0] == 'R' and i + 1 < len(el) and el[i + 1][0] == 'S' and el[i + 1][1].get('srf') == e[1]['id'] and
+                  el[i + 1][1]['sm'] in (0, 4) and e[1].get('rm') in ('recv', 'irecv') and e[1].get('rdy') is None and
+                  not any(x[0] == 'R' and x[1].get('rdy') == el[i + 1][1]['id'] for x in el)):
+                out.append(['SR', el[i + 1][1], e[2], e[3], e[1]])
                 i += 2
             else:
                 out.append(e)
@@ -761,11 +839,11 @@ def build(plan):
                         pool_busy[rg_[3]] = False
             elif kind == 'B':
                 think(it.get('t', {}).get(str(r)))
-                comm_op('barrier', [it['c']], dict(r='barrier'))
+                comm_op('barrier', [it['c']], dict(r='barrier', pos=pos, parts=parts[pos]))
             elif kind == 'C':
                 res = coll_ops[pos][r]
                 if res:
-                    comm_op(res[0], res[1], res[2])
+                    comm_op(res[0], res[1], dict(res[2], pos=pos, parts=parts[pos]))
             elif kind == 'P':
                 ti = tinfo(it['t'])
                 L = R.span(ti, it['count'])[1]
@@ -913,9 +991,27 @@ def analyze(plan, res):
     for rank in range(np_):
         ops = B.ops[rank]
         active = {}     # q -> (side, mid)
+        tainted = set()  # requests that went through a Testall that returned flag=0
         for idx, (name, args, meta) in enumerate(ops):
             L = per[rank].get(idx)
             if L is None:
+                # the rank never returned from this call: what it posted there still exists
+                role = meta.get('r')
+                t0 = t0_of(rank, idx)
+                if role in ('send', 'sendrecv'):
+                    it = B.msgs[meta['m'] if role == 'send' else meta['ms']]
+                    sends[it['id']] = dict(id=it['id'], src=it['s'], dst=it['d'], comm=B.comm_at[it['id']], tag=it['tag'],
+                                           seq=idx, t0=t0, t1=1e300, rc='ok', sm=meta.get('sm', 0), gpos=1 << 60,
+                                           bytes=B.ti(it['st']).size * it['sc'])
+                if role in ('recv', 'sendrecv') and not meta.get('probe'):
+                    it = B.msgs[meta['m'] if role == 'recv' else meta['mr']]
+                    g = B.mgroup[it['id']]
+                    recvs[it['id']] = dict(rid=it['id'], rank=rank, comm=B.comm_at[it['id']], group=g,
+                                           src=(ANY if it.get('rs') == ANY else it['s']),
+                                           tag=(ANY if it.get('rtg') == ANY else it['tag']), seq=idx, t0=t0, t1=None,
+                                           status=None, rc=None, got=None, meta=meta, it=it, wild=(it.get('rs') == ANY),
+                                           probe=False, gpos=1 << 60)
+                A.__dict__.setdefault('blocked', {})[rank] = (idx, name, role)
                 break
             if L.name != name:
                 add('log-desync', 'rank %d op %d: plan has %s, log has %s' % (rank, idx, name, L.name))
@@ -964,7 +1060,7 @@ def analyze(plan, res):
             elif role == 'probe':
                 if f[1] == '1':
                     stt, _ = parse_status(f, 2)
-                    probes[meta['m']] = dict(kind=meta['kind'], status=stt, t=L.t, rc=f[0])
+                    probes[meta['m']] = dict(kind=meta['kind'], status=stt, t=L.t, rc=f[0], tagspec=args[1])
             elif role in ('wait', 'test', 'waitall', 'testall', 'waitany'):
                 qs, who = meta['qs'], meta['who']
                 done = []   # (i, status)
@@ -981,6 +1077,10 @@ def analyze(plan, res):
                         if qs[i] in active:
                             done.append((i, stt, f[0]))
                 elif role == 'testall':
+                    if f[1] != '1':
+                        for q_ in qs:
+                            if q_ in active:
+                                tainted.add(q_)
                     if f[1] == '1':
                         p = 2
                         for i in range(len(qs)):
@@ -999,8 +1099,10 @@ def analyze(plan, res):
                     if side == 'r':
                         rec = recvs[mid]
                         rec['status'], rec['rc'], rec['t1'] = stt, rc, L.t
+                        rec['after_testall'] = qs[i] in tainted
                     elif rc != 'ok':
                         add('rc', 'rank %d: completion of send %s returned %s' % (rank, mid, rc))
+                    tainted.discard(qs[i])
             elif role == 'dump':
                 dumps[meta['m']] = (meta, parse_dump(f))
             elif role == 'gchk':
@@ -1045,6 +1147,13 @@ def analyze(plan, res):
         if c == 'match-comm':
             c = 'cross-comm'
         add(c, m)
+    if ex and ex[0] in ('deadlock', 'hang'):
+        for r_ in recvs.values():
+            it = r_['it']
+            if it.get('trunc') and r_['got'] is None and it['id'] in sends:
+                V[0] = ('trunc-' + ex[0], 'oversized message %s (%d bytes into a %d-byte receive) is never delivered nor reported: %s' %
+                        (it['id'], sends[it['id']]['bytes'], B.ti(it['rt']).size * it['rc'], ex[1]))
+                break
     # ---- signature: global order of communication events
     for L in order:
         if L.idx < 0:
@@ -1292,12 +1401,25 @@ def _check_recv(plan, B, r, dump, cands_all, consumed, add, st, psm, probes, ath
             (r['rid'], rank, stt['src'], stt['tag'], stt['bytes'], m['id'], m['bytes'], m['src'], pos - rmeta['start'],
              actual[i], exp[i], 'inside' if inside else 'outside', ' = sender\'s overwrite pattern' if poison else ''))
     r['got'] = m['id']
+    pr = probes.get(r['rid'])
+    if pr and r['probe'] and m['comm'] == r['comm']:
+        for e in cands:
+            if (e['src'] == m['src'] and e['comm'] == m['comm'] and e['seq'] < m['seq'] and R.tag_ok(pr['tagspec'], e['tag'])):
+                add('probe-order', 'rank %d: %s(tag spec %d) announced message %s (tag %d, %d-th call of rank %d) although the earlier '
+                    'message %s (tag %d, %d-th call) from the same rank on the same communicator also matched and was still unreceived' %
+                    (rank, pr['kind'], pr['tagspec'], m['id'], m['tag'], m['seq'], m['src'], e['id'], e['tag'], e['seq']))
+                break
     consumed.add(m['id'])
     mi = B.msgs[m['id']]
     cap = B.ti(rit['rt']).size * rit['rc']
     trunc = m['bytes'] > cap
     # 2. status
-    if m['comm'] == r['comm']:
+    lost = r.get('after_testall') and stt['src'] == -1 and stt['tag'] == -1
+    if lost:
+        add('status-testall', 'recv slot %s on rank %d got message %s (world rank %d, tag %d, %d bytes) but its status is empty '
+            '(MPI_SOURCE=ANY_SOURCE, MPI_TAG=ANY_TAG, count 0): the request was silently completed by an earlier '
+            'MPI_Testall that returned flag=0' % (r['rid'], rank, m['id'], m['src'], m['tag'], m['bytes']))
+    elif m['comm'] == r['comm']:
         if ssrc != m['src']:
             add('status-source', 'recv slot %s on rank %d got message %s from world rank %d but MPI_SOURCE=%d (world %s)' %
                 (r['rid'], rank, m['id'], m['src'], stt['src'], ssrc))
@@ -1316,11 +1438,13 @@ def _check_recv(plan, B, r, dump, cands_all, consumed, add, st, psm, probes, ath
                 (r['rid'], rank, m['bytes'], cap))
         elif r['rc'] not in ('ok',):
             add('rc', 'recv slot %s on rank %d returned %s (status error %s)' % (r['rid'], rank, r['rc'], stt['err']))
-        if stt['bytes'] != m['bytes']:
+        if lost:
+            pass
+        elif stt['bytes'] != m['bytes']:
             add('count', 'recv slot %s on rank %d: Get_count(MPI_BYTE)=%d, message %s has %d bytes' %
                 (r['rid'], rank, stt['bytes'], m['id'], m['bytes']))
         sz = B.ti(rit['rt']).size
-        if sz > 0 and stt['cnt'] != '-':
+        if sz > 0 and stt['cnt'] != '-' and not lost:
             e = str(m['bytes'] // sz) if m['bytes'] % sz == 0 else 'u'
             if stt['cnt'] != e:
                 add('count-type', 'recv slot %s on rank %d: Get_count(recv type)=%s, expected %s (%d bytes / %d)' %
@@ -1399,3 +1523,936 @@ def _check_pack(plan, B, rank, itid, d, add, st):
         i = _first_diff(got, exp, None)
         add('unpack:' + kind, 'Unpack(%d x %s): byte at offset %d is 0x%02x, expected 0x%02x' %
             (it['count'], tdesc(plan, it['t']), i - GUARD, got[i], exp[i]))
+
+
+# ---------------------------------------------------------------------------------------------------------
+# pessimistic (fully synchronous) executor: a plan that completes here cannot deadlock under any buffering
+# ---------------------------------------------------------------------------------------------------------
+def pessimistic_ok(B):
+    np_ = B.np
+    pc = [0] * np_
+    ps, pr = set(), set()
+    arrived = {}
+    n = [len(B.ops[r]) for r in range(np_)]
+
+    def matched(side, m):
+        return (m in pr) if side == 's' else (m in ps)
+    progress = True
+    while progress:
+        progress = False
+        for r in range(np_):
+            while pc[r] < n[r]:
+                name, args, meta = B.ops[r][pc[r]]
+                role = meta.get('r')
+                ok = True
+                if role == 'send':
+                    ps.add(meta['m'])
+                    if meta['q'] is None:
+                        ok = meta['m'] in pr
+                elif role == 'recv':
+                    pr.add(meta['m'])
+                    if meta['q'] is None:
+                        ok = meta['m'] in ps
+                elif role == 'probe':
+                    ok = meta['kind'] == 'iprobe' or meta['m'] in ps
+                elif role == 'sendrecv':
+                    ps.add(meta['ms'])
+                    pr.add(meta['mr'])
+                    ok = meta['ms'] in pr and meta['mr'] in ps
+                elif role in ('wait', 'waitall', 'waitany'):
+                    ok = all(matched(s, m) for s, m in meta['who'])
+                elif role == 'barrier' or (role == 'comm' and 'parts' in meta):
+                    key = (role, meta['pos'])
+                    arrived.setdefault(key, set()).add(r)
+                    ok = len(arrived[key]) == len(meta['parts'])
+                if not ok:
+                    break
+                pc[r] += 1
+                progress = True
+    return all(pc[r] == n[r] for r in range(np_))
+
+
+def validate(plan):
+    """raises ValueError if the plan is malformed or could deadlock"""
+    B = build(plan)
+    if not pessimistic_ok(B):
+        raise ValueError('plan can deadlock under synchronous sends')
+    return B
+
+
+# ---------------------------------------------------------------------------------------------------------
+# generation
+# ---------------------------------------------------------------------------------------------------------
+def gen_thresholds(rg):
+    a = rg.choice([0, 0, 0, 32, 100, 256, 1024, 4096])
+    d = rg.choice([x for x in [0, 64, 300, 1024, 4096, 16384, 65536, 65536] if x >= a])
+    return a, d
+
+
+def gen_size(rg, a, d, cap=40000):
+    anchors = [0, 1, 2, 3, 7]
+    for x in (a, d):
+        if x > 0:
+            anchors += [x - 1, x, x + 1]
+    k = rg.below(10)
+    if k < 4:
+        v = rg.choice(anchors)
+    elif k < 7:
+        v = rg.randint(4, 200)
+    elif k < 9:
+        v = rg.randint(1, max(2 * a, 64) + 1)
+    else:
+        v = rg.randint(1, min(cap, 2 * max(d, 1024)))
+    return max(0, min(v, cap))
+
+
+def gen_think(rg, p=0.45):
+    if not rg.chance(p):
+        return None
+    ns = int(10 ** (3 + 3.5 * rg.random()))
+    if rg.chance(0.3):
+        return [1, max(1, ns // 10)]        # flops: ns/10 flops = ns at 1e8..1e10 f/s scaled
+    return [0, ns]
+
+
+def gen_cfg(rg, prof):
+    a, d = gen_thresholds(rg)
+    cfg = {'smpi/async-small-thresh': a, 'smpi/send-is-detached-thresh': d,
+           'smpi/privatization': rg.choice(prof.get('priv', ['dlopen', 'dlopen', 'mmap'])),
+           'smpi/wtime': rg.choice(['0', '0', '0', '1e-8'])}
+    if rg.chance(0.3):
+        cfg['smpi/iprobe'] = rg.choice(['1e-6', '1e-5', '1e-4'])
+    if rg.chance(0.3):
+        cfg['smpi/test'] = rg.choice(['0', '1e-6', '1e-4'])
+    if rg.chance(0.25):
+        cfg['smpi/os'] = rg.choice(['0:1e-6:1e-9', '0:5e-6:0;1024:2e-5:1e-9'])
+        cfg['smpi/or'] = rg.choice(['0:1e-6:1e-9', '0:8e-6:0'])
+        if rg.chance(0.5):
+            cfg['smpi/ois'] = '0:2e-6:0'
+    if rg.chance(0.15):
+        cfg['network/model'] = rg.choice(['CM02', 'LV08'])
+    if rg.chance(0.2):
+        cfg['smpi/host-speed'] = rg.choice(['1e8f', '1e10f'])
+    return cfg
+
+
+def _lay_blocks(rg, n, unit, maxgap=3, maxbl=3):
+    """n blocks of lengths 0..maxbl laid out without overlap (in `unit`s); returns (bls, disps) in random order"""
+    bls, disps = [], []
+    pos = rg.randint(0, 2)
+    for _ in range(n):
+        b = rg.randint(0, maxbl)
+        bls.append(b)
+        disps.append(pos)
+        pos += b + rg.randint(0, maxgap)
+    idx = list(range(n))
+    if rg.chance(0.4):
+        rg.shuffle(idx)
+    return [bls[i] for i in idx], [disps[i] * unit for i in idx]
+
+
+def gen_type(rg, depth, base, mixed=False):
+    """random type tree of the given depth over one base type (or mixed bases for a top-level struct)"""
+    if depth == 0:
+        return ['b', base]
+    sub = gen_type(rg, depth - 1 if rg.chance(0.8) else 0, base)
+    ti = R.flatten(sub)
+    e = ti.extent
+    bs = R.BASE[base]
+    k = rg.wchoice([('contig', 2), ('vector', 3), ('hvector', 3), ('indexed', 3), ('hindexed', 3), ('indexed_block', 2),
+                    ('struct', 3), ('resized', 2), ('subarray', 3)])
+    if k == 'contig':
+        return ['contig', rg.randint(0, 4), sub]
+    if k == 'vector':
+        bl = rg.randint(0, 3)
+        return ['vector', rg.randint(0, 4), bl, bl + rg.randint(0, 3), sub]
+    if k == 'hvector':
+        bl = rg.randint(0, 3)
+        return ['hvector', rg.randint(0, 4), bl, bl * e + bs * rg.randint(0, 4), sub]
+    if k == 'indexed':
+        bls, disps = _lay_blocks(rg, rg.randint(1, 4), 1)
+        return ['indexed', bls, disps, sub]
+    if k == 'hindexed':
+        bls, disps = _lay_blocks(rg, rg.randint(1, 4), 1)
+        # byte displacements: block i needs bls*e bytes
+        pos = bs * rg.randint(0, 2)
+        out = []
+        order = sorted(range(len(bls)), key=lambda i: disps[i])
+        d2 = [0] * len(bls)
+        for i in order:
+            d2[i] = pos
+            pos += bls[i] * e + bs * rg.randint(0, 3)
+        return ['hindexed', bls, d2, sub]
+    if k == 'indexed_block':
+        bl = rg.randint(0, 3)
+        n = rg.randint(1, 4)
+        pos = rg.randint(0, 2)
+        disps = []
+        for _ in range(n):
+            disps.append(pos)
+            pos += bl + rg.randint(0, 3)
+        if rg.chance(0.4):
+            rg.shuffle(disps)
+        return ['indexed_block', bl, disps, sub]
+    if k == 'struct':
+        n = rg.randint(1, 3)
+        subs = [sub] + [gen_type(rg, rg.randint(0, max(0, depth - 1)), base) for _ in range(n - 1)]
+        if mixed:
+            subs = [s if rg.chance(0.4) else ['b', rg.choice(['CHAR', 'SHORT', 'INT', 'DOUBLE'])] for s in subs]
+        bls = [rg.randint(0, 2) for _ in range(n)]
+        unit = 8 if mixed else bs
+        pos = unit * rg.randint(0, 2)
+        disps = []
+        for s, b in zip(subs, bls):
+            si = R.flatten(s)
+            disps.append(pos)
+            need = b * si.extent + max(0, si.true_ub - si.ub if si.size else 0) + max(0, si.lb)
+            pos += (need + unit - 1) // unit * unit + unit * rg.randint(0, 2)
+        idx = list(range(n))
+        if rg.chance(0.3):
+            rg.shuffle(idx)
+        return ['struct', [bls[i] for i in idx], [disps[i] for i in idx], [subs[i] for i in idx]]
+    if k == 'resized':
+        tl, tu = ti.true_lb, ti.true_ub
+        lb = rg.choice([0, tl, max(0, tl - bs)])
+        if lb > tl:
+            lb = 0
+        ext = max(tu - lb, 0) + bs * rg.randint(0, 3)
+        return ['resized', sub, lb, ext]
+    nd = rg.randint(1, 3)
+    sizes = [rg.randint(1, 4) for _ in range(nd)]
+    subsizes = [rg.randint(0 if rg.chance(0.1) else 1, s) for s in sizes]
+    starts = [rg.randint(0, s - ss) for s, ss in zip(sizes, subsizes)]
+    return ['subarray', sizes, subsizes, starts, rg.below(2), sub]
+
+
+def gen_recv_type(rg, base, maxspan=6000):
+    """a type usable on the receive side with count up to 5: instances must not overlap"""
+    for _ in range(40):
+        t = gen_type(rg, rg.randint(1, 3), base)
+        ti = R.flatten(t)
+        if R.any_epsilon(t) or ti.lb < 0 or ti.true_lb < 0:
+            continue
+        if R.span(ti, 5)[1] > maxspan or R.overlaps(ti, 5):
+            continue
+        return t
+    return ['contig', 2, ['b', base]]
+
+
+def elems(ti):
+    return sum(n for _, n in ti.sig)
+
+
+def new_msg(rg, mid, s, d, c, tag, a, dthr, prof):
+    m = dict(k='msg', id=mid, s=s, d=d, c=c, tag=tag)
+    m['sm'] = rg.wchoice([(0, 30), (4, 25), (1, 10), (5, 5), (2, 8), (6, 4)])
+    m['rm'] = rg.wchoice([('recv', 40), ('irecv', 35), ('probe', 12 * prof.get('probes', 1)), ('iprobe', 8 * prof.get('probes', 1))])
+    if rg.chance(0.2):
+        m['rtg'] = ANY
+    if m['sm'] >= 4:
+        m['sw'] = rg.choice([0, 0, 1, 2, 4])
+        m['wks'] = rg.below(5)
+    if m['rm'] == 'irecv':
+        m['rw'] = rg.choice([0, 0, 1, 2, 4])
+        m['wkr'] = rg.below(5)
+        if rg.chance(0.3):
+            m['hoist'] = rg.randint(1, 4)
+    m['ts'] = gen_think(rg)
+    m['tr'] = gen_think(rg)
+    if rg.chance(0.3):
+        m['mis'] = rg.randint(1, 7)
+    if rg.chance(0.3):
+        m['mir'] = rg.randint(1, 7)
+    return m
+
+
+def set_plain_payload(rg, m, size, base=None):
+    base = base or rg.wchoice([('BYTE', 6), ('CHAR', 1), ('INT', 1), ('DOUBLE', 1), ('SHORT', 1)])
+    n = size // R.BASE[base]
+    m['st'] = m['rt'] = base
+    m['sc'] = n
+    m['rc'] = n + (rg.choice([0, 0, 1, 5, 100]))
+
+
+def gen_plan(seed, tier, prof):
+    rg = Rng(seed, 'mpisim', prof['name'])
+    lo, hi = prof['np']
+    np_ = rg.randint(lo, hi)
+    plat, hostmap = gen_platform(Rng(seed, 'platform'), np_)
+    cfg = gen_cfg(Rng(seed, 'knobs'), prof)
+    a, dthr = cfg['smpi/async-small-thresh'], cfg['smpi/send-is-detached-thresh']
+    plan = dict(v=1, check=prof['name'], seed=seed, np=np_, cfg=cfg, plat=plat, hostmap=hostmap, types=[], setup=[],
+                items=[])
+    if prof.get('gvars'):
+        plan['gvars'] = True
+    # ---- communicators
+    comms = {0: [list(range(np_))]}        # slot -> list of instances (member lists)
+    nslot = [2]
+    ngrp = [0]
+    rs = Rng(seed, 'comms')
+
+    def add_split(old):
+        inst = comms[old]
+        color = [rs.choice([0, 0, 1, 1, 2, R.UNDEFINED]) for _ in range(np_)]
+        key = [rs.choice([0, 0, 1, 2, -1, 5, w]) for w in range(np_)]
+        new = nslot[0]
+        nslot[0] += 1
+        out = []
+        for g in inst:
+            res = R.comm_split(g, {w: color[w] for w in g}, {w: key[w] for w in g})
+            for w in g:
+                if res[w] is not None and res[w] not in out:
+                    out.append(res[w])
+        comms[new] = out
+        return dict(op='split', new=new, old=old, color=color, key=key)
+
+    def add_dup(old):
+        new = nslot[0]
+        nslot[0] += 1
+        comms[new] = [list(g) for g in comms[old]]
+        return dict(op='dup', new=new, old=old)
+    ncomm = prof.get('ncomm', (0, 2))
+    for _ in range(rs.randint(*ncomm)):
+        old = rs.choice(sorted(comms))
+        if not comms[old]:
+            continue
+        plan['setup'].append(add_split(old) if rs.chance(0.6) else add_dup(old))
+    if prof.get('groups'):
+        _gen_group_algebra(rs, plan, np_, comms, nslot, ngrp)
+    usable = [(c, g) for c in sorted(comms) for g in comms[c] if len(g) >= 2]
+    if np_ >= 1 and prof.get('self_msgs') and not usable:
+        usable = [(0, list(range(np_)))]
+    # ---- traffic
+    nm = rg.randint(*prof['nmsg'][tier if tier in prof['nmsg'] else 'quick'])
+    tags = [rg.randint(0, 9) for _ in range(rg.randint(1, 3))]
+    items = plan['items']
+    mid = [1]
+    uniq_tag = [1000]
+    trunc_left = 1 if rg.chance(prof.get('trunc', 0)) else 0
+    tgen = Rng(seed, 'types')
+
+    def payload(m):
+        if prof.get('types') == 'derived' and tgen.chance(0.8):
+            _derived_payload(tgen, plan, m, a, dthr)
+        else:
+            set_plain_payload(rg, m, gen_size(rg, a, dthr, prof.get('cap', 40000)))
+        if prof.get('gvars'):
+            if rg.chance(0.5):
+                m['sbk'] = 1
+            if rg.chance(0.5):
+                m['rbk'] = 1
+    while len([x for x in items if x['k'] == 'msg']) < nm and usable:
+        kind = rg.wchoice([('stream', 60), ('fanin', 14 * prof.get('wild', 0)), ('fanany', 8 * prof.get('wild', 0)),
+                           ('ring', 8), ('rsend', 5), ('barrier', 3), ('coll', 4 * prof.get('midcoll', 0)),
+                           ('pack', 6 * prof.get('pack', 0))])
+        c, g = rg.choice(usable)
+        if kind == 'stream':
+            for _ in range(rg.randint(1, 6)):
+                c, g = rg.choice(usable)
+                s, d = rg.sample(g, 2) if len(g) >= 2 else (g[0], g[0])
+                if prof.get('self_msgs') and rg.chance(0.05):
+                    d = s
+                m = new_msg(rg, mid[0], s, d, c, rg.choice(tags), a, dthr, prof)
+                mid[0] += 1
+                payload(m)
+                if s == d:
+                    m['sm'] = 4
+                    m['sw'] = 1
+                    m['rm'] = rg.choice(['recv', 'irecv'])
+                    m['hoist'] = 0
+                if trunc_left and s != d and is_plain(plan, m['st']) and m['sc'] >= 2 and rg.chance(0.3):
+                    trunc_left = 0
+                    m['trunc'] = True
+                    m['rc'] = rg.randint(0, m['sc'] - 1)
+                    m['rm'] = rg.choice(['recv', 'irecv'])
+                items.append(m)
+        elif kind in ('fanin', 'fanany') and len(g) >= 2:
+            d = rg.choice(g)
+            senders = rg.sample([w for w in g if w != d], rg.randint(1, min(4, len(g) - 1)))
+            ph = []
+            tag = uniq_tag[0]
+            uniq_tag[0] += 1
+            for s in senders:
+                for _ in range(rg.randint(1, 2)):
+                    m = new_msg(rg, mid[0], s, d, c, tag if kind == 'fanin' else rg.choice(tags + [tag]), a, dthr, prof)
+                    mid[0] += 1
+                    set_plain_payload(rg, m, gen_size(rg, a, dthr, prof.get('cap', 40000)), 'BYTE')
+                    m['rs'] = ANY
+                    m['hoist'] = 0
+                    m['sw'] = 0 if m['sm'] >= 4 else None
+                    m['rw'] = None
+                    if kind == 'fanany':
+                        m['rtg'] = ANY
+                    elif 'rtg' in m:
+                        del m['rtg']
+                    ph.append(m)
+            rg.shuffle(ph)
+            mx = max(m['sc'] for m in ph)
+            style = rg.choice(['recv', 'irecv', 'mixed'])
+            for i, m in enumerate(ph):
+                m['rc'] = mx
+                m['ph'] = tag
+                if m['rm'] == 'irecv' or style == 'irecv':
+                    m['rm'] = 'irecv'
+                    m['rw'] = len(ph) - 1 - i      # complete all receives of the phase together, at its end
+                    m['wkr'] = rg.choice([2, 3, 4]) if style == 'irecv' else m.get('wkr', 0)
+                elif style == 'recv' and m['rm'] not in ('probe', 'iprobe'):
+                    m['rm'] = 'recv'
+            # receives must be posted in phase order on the receiver and nothing else may interleave there:
+            # the phase is contiguous in the global order
+            if kind == 'fanany':
+                items.append(dict(k='barrier', c=0))
+            items.extend(ph)
+            if kind == 'fanany':
+                items.append(dict(k='barrier', c=0))
+        elif kind == 'ring' and len(g) >= 2:
+            # every member sends to its right neighbour and receives from the left one with MPI_Sendrecv
+            tag = rg.choice(tags)
+            ms = []
+            for i, w in enumerate(g):
+                m = new_msg(rg, mid[0], w, g[(i + 1) % len(g)], c, tag, a, dthr, prof)
+                mid[0] += 1
+                payload(m)
+                m['sm'] = 0
+                m['rm'] = 'recv'
+                m.pop('hoist', None)
+                ms.append(m)
+            for i, m in enumerate(ms):
+                m['srf'] = ms[i - 1]['id']     # my send is fused with the receive of my left neighbour's message
+            # item order such that, on each rank, its send entry is immediately followed by its receive entry
+            items.extend(_ring_order(ms))
+        elif kind == 'rsend' and len(g) >= 2:
+            s, d = rg.sample(g, 2)
+            rdy = new_msg(rg, mid[0], d, s, c, rg.choice(tags), a, dthr, prof)
+            mid[0] += 1
+            set_plain_payload(rg, rdy, 0, 'BYTE')
+            rdy['rm'] = 'recv'
+            rdy.pop('hoist', None)
+            rdy.pop('rtg', None)
+            if rdy['sm'] >= 4:
+                rdy['sw'] = 0
+            m = new_msg(rg, mid[0], s, d, c, rg.choice(tags), a, dthr, prof)
+            mid[0] += 1
+            payload(m)
+            m['sm'] = rg.choice([3, 3, 7])
+            if m['sm'] == 7:
+                m['sw'] = rg.choice([0, 1])
+                m['wks'] = rg.below(5)
+            else:
+                m.pop('sw', None)
+            m['rm'] = 'irecv'
+            m['rw'] = rg.choice([0, 1, 2])
+            m['wkr'] = rg.below(5)
+            m['rdy'] = rdy['id']
+            m.pop('hoist', None)
+            items.append(rdy)
+            items.append(m)
+        elif kind == 'barrier':
+            t = {str(w): gen_think(rg, 0.5) for w in range(np_)}
+            items.append(dict(k='barrier', c=0, t=t))
+        elif kind == 'coll':
+            old = rg.choice(sorted(comms))
+            if comms[old]:
+                st = add_split(old) if rs.chance(0.5) else add_dup(old)
+                items.append(dict(k='coll', step=st))
+                usable = [(c2, g2) for c2 in sorted(comms) for g2 in comms[c2] if len(g2) >= 2]
+        elif kind == 'pack' and plan['types']:
+            ti_ = rg.below(len(plan['types']))
+            items.append(dict(k='pack', id=mid[0], rank=rg.below(np_), t=ti_, count=rg.randint(0, 4),
+                              slack=rg.choice([0, 0, 8])))
+            mid[0] += 1
+    if prof.get('psm'):
+        _gen_psm(Rng(seed, 'psm'), plan, a, dthr)
+    if prof.get('free_comms') and rg.chance(0.5):
+        for c in sorted(comms):
+            if c >= 2 and rg.chance(0.5):
+                plan['setup_end'] = plan.get('setup_end', [])
+                items.append(dict(k='coll', step=dict(op='cfree', c=c)))
+                break
+    return plan
+
+
+def _ring_order(ms):
+    """order ring messages so that each rank's send entry immediately precedes its receive entry in its own
+    projection of the global order: m0, then m_{n-1}, m_{n-2}, ... m1 does not work in general; instead interleave:
+    rank i has entries S(m_i) and R(m_{i-1}). Emitting m_0, m_1, ..., m_{n-1} gives rank i: R(m_{i-1}) then S(m_i)
+    except rank 0: S(m_0) ... R(m_{n-1}). The builder fuses S followed by R, so emit in reverse order."""
+    return list(reversed(ms))
+
+
+def _derived_payload(rg, plan, m, a, dthr):
+    base = rg.wchoice([('INT', 4), ('BYTE', 2), ('DOUBLE', 2), ('SHORT', 1), ('CHAR', 1)])
+    types = plan['types']
+
+    def pick_or_new():
+        same = [i for i, t in enumerate(types) if _base_of(t) == base]
+        if same and rg.chance(0.5) or len(types) >= 8:
+            if same:
+                return rg.choice(same)
+        types.append(gen_recv_type(rg, base))
+        return len(types) - 1
+    mode = rg.wchoice([('s', 3), ('r', 3), ('sr', 3), ('same', 2)])
+    if mode in ('s', 'sr', 'same'):
+        st = pick_or_new()
+        sti = R.flatten(types[st])
+        sc = rg.randint(0, 5)
+        n = sc * elems(sti)
+        m['st'], m['sc'] = st, sc
+    else:
+        n = rg.randint(0, 40)
+        m['st'], m['sc'] = base, n
+    if mode == 'same':
+        m['rt'], m['rc'] = m['st'], m['sc'] + rg.choice([0, 0, 1])
+        if m['rc'] > 5:
+            m['rc'] = 5
+            m['sc'] = min(m['sc'], 5)
+        return
+    if mode in ('r', 'sr'):
+        for _ in range(6):
+            rt = pick_or_new()
+            e = elems(R.flatten(types[rt]))
+            if e > 0 and n % e == 0 and n // e <= 5:
+                m['rt'], m['rc'] = rt, min(5, n // e + rg.choice([0, 0, 1]))
+                return
+            if e > 0 and rg.chance(0.08) and (n + e - 1) // e <= 5:
+                m['rt'], m['rc'] = rt, (n + e - 1) // e        # partial last instance
+                m['partial'] = True
+                return
+    m['rt'], m['rc'] = base, n + rg.choice([0, 0, 3])
+
+
+def _base_of(t):
+    while t[0] != 'b':
+        t = t[3][0] if t[0] == 'struct' else (t[1] if t[0] == 'resized' else t[-1])
+    return t[1]
+
+
+def _gen_psm(rg, plan, a, dthr):
+    np_ = plan['np']
+    cfgbs = rg.choice([4096, 8192, 1048576])
+    plan['cfg']['smpi/shared-malloc-blocksize'] = cfgbs
+    psm = {}
+    for r in range(np_):
+        lay = {}
+        for side in ('s', 'r'):
+            size = rg.choice([8192, 12288, 20000, 32768, 40960, 49152]) + rg.choice([0, 0, 1, 100])
+            nb = rg.randint(1, 4)
+            cuts = sorted(set([rg.choice([0, 0, 4096, 100, 5000, 8192]) if i == 0 else
+                               (rg.randint(1, size - 1) if rg.chance(0.5) else rg.randint(1, size // 4096) * 4096 - rg.choice([0, 0, 1]))
+                               for i in range(2 * nb)]))
+            cuts = [x for x in cuts if 0 <= x <= size]
+            if rg.chance(0.3) and cuts and cuts[-1] != size:
+                cuts.append(size)
+            if len(cuts) % 2:
+                cuts = cuts[:-1]
+            blocks = [[cuts[i], cuts[i + 1]] for i in range(0, len(cuts), 2) if cuts[i] < cuts[i + 1]]
+            if not blocks:
+                blocks = [[4096, 8192]]
+            lay[side] = dict(size=size, shared=blocks)
+        psm[str(r)] = lay
+    plan['psm'] = psm
+    for m in plan['items']:
+        if m['k'] != 'msg':
+            continue
+        which = rg.wchoice([('s', 3), ('r', 3), ('sr', 4)])
+        size = rg.choice([1, 17, 300, 4096, 5000, 9000]) if rg.chance(0.5) else rg.randint(1, 20000)
+        m['st'] = m['rt'] = 'BYTE'
+        m['sc'] = size
+        m['rc'] = size + rg.choice([0, 0, 0, 7])
+        m.pop('trunc', None)
+        for side, key, bk in (('s', 'soff', 'sbk'), ('r', 'roff', 'rbk')):
+            if side in which:
+                lay = psm[str(m['s'] if side == 's' else m['d'])][side]
+                m[bk] = 2
+                priv = _private_blocks(lay)
+                L = m['sc'] if side == 's' else m['rc']
+                mode = rg.below(6)
+                if priv and mode < 4:
+                    p0, p1 = rg.choice(priv)
+                    if mode == 0:
+                        off = rg.randint(p0, max(p0, p1 - 1))          # starts inside a private block
+                    elif mode == 1:
+                        off = max(0, p0 - rg.randint(1, 600))           # starts before it (in shared memory) and runs across
+                    elif mode == 2:
+                        off = p0                                        # exactly at its start
+                    else:
+                        off = max(0, p1 - rg.randint(1, 64))            # straddles its end
+                elif mode == 4:
+                    off = 0
+                else:
+                    off = rg.randint(0, lay['size'] - 1)
+                m[key] = max(0, min(off, lay['size'] - L))
+            else:
+                m[bk] = 0
+        # one in-flight operation per partial-shared buffer: no deferred waits, no hoisting
+        if m.get('sw') is not None:
+            m['sw'] = 0
+        if m.get('rw') is not None and m.get('ph') is None:
+            m['rw'] = 0
+        m.pop('hoist', None)
+        if m.get('ph') is not None and m.get('rm') == 'irecv':
+            m['rbk'] = 0
+
+
+def _private_blocks(lay):
+    out = []
+    pos = 0
+    for a, b in lay['shared']:
+        if a > pos:
+            out.append((pos, a))
+        pos = b
+    if pos < lay['size']:
+        out.append((pos, lay['size']))
+    return out
+
+
+def _gen_group_algebra(rs, plan, np_, comms, nslot, ngrp):
+    """group constructors over uniform groups (derived from MPI_COMM_WORLD) + communicators made from them"""
+    S = plan['setup']
+    groups = {}         # slot -> list (uniform on all ranks)
+
+    def newg():
+        ngrp[0] += 1
+        return ngrp[0] - 1
+    g0 = newg()
+    S.append(dict(op='cgroup', g=g0, c=0))
+    groups[g0] = list(range(np_))
+    for _ in range(rs.randint(3, 12)):
+        src = rs.choice(sorted(groups))
+        g = groups[src]
+        k = rs.wchoice([('gincl', 3), ('gexcl', 3), ('grincl', 3), ('grexcl', 3), ('gunion', 3), ('ginter', 3), ('gdiff', 3),
+                        ('gtrans', 3), ('gcmp', 2), ('ginfo', 1), ('create', 2), ('create2', 1), ('splitgrp', 1)])
+        if k in ('gincl', 'gexcl'):
+            ranks = rs.sample(range(len(g)), rs.randint(0, len(g))) if g else []
+            n = newg()
+            S.append(dict(op=k, g=n, ranks=ranks, **{'from': src}))
+            groups[n] = R.g_incl(g, ranks) if k == 'gincl' else R.g_excl(g, ranks)
+        elif k in ('grincl', 'grexcl'):
+            ranges = []
+            used = set()
+            for _ in range(rs.randint(0, 3)):
+                if not g:
+                    break
+                f = rs.below(len(g))
+                s = rs.choice([1, 1, 2, 3, -1, -2])
+                cnt = rs.randint(1, 4)
+                last = f
+                rr = []
+                for i in range(cnt):
+                    x = f + i * s
+                    if not 0 <= x < len(g) or x in used:
+                        break
+                    rr.append(x)
+                    last = x
+                if not rr:
+                    continue
+                # 'last' may overshoot the final selected rank as long as no further rank is reachable
+                l = last
+                if rs.chance(0.3) and 0 <= last + (1 if s > 0 else -1) * (abs(s) - 1) < len(g) and abs(s) > 1:
+                    l = last + (1 if s > 0 else -1) * (abs(s) - 1)
+                used.update(rr)
+                ranges.append([f, l, s])
+            n = newg()
+            S.append(dict(op=k, g=n, ranges=ranges, **{'from': src}))
+            groups[n] = R.g_range_incl(g, ranges) if k == 'grincl' else R.g_range_excl(g, ranges)
+        elif k in ('gunion', 'ginter', 'gdiff'):
+            o = rs.choice(sorted(groups) + [-1])
+            ob = [] if o == -1 else groups[o]
+            n = newg()
+            S.append(dict(op=k, g=n, a=src, b=o))
+            groups[n] = {'gunion': R.g_union, 'ginter': R.g_intersection, 'gdiff': R.g_difference}[k](g, ob)
+        elif k == 'gtrans':
+            o = rs.choice(sorted(groups))
+            if g:
+                S.append(dict(op='gtrans', a=src, b=o, ranks=[rs.below(len(g)) for _ in range(rs.randint(1, 6))]))
+        elif k == 'gcmp':
+            S.append(dict(op='gcmp', a=src, b=rs.choice(sorted(groups) + [-1])))
+        elif k == 'ginfo':
+            S.append(dict(op='ginfo', g=src))
+        elif k == 'create':
+            new = nslot[0]
+            nslot[0] += 1
+            S.append(dict(op='create', new=new, old=0, g=src))
+            comms[new] = [list(g)] if g else []
+        elif k == 'create2' and len(g) >= 2:
+            # two disjoint groups passed by their respective members, MPI_GROUP_EMPTY by everyone else
+            cut = rs.randint(1, len(g) - 1)
+            ga, gb = newg(), newg()
+            S.append(dict(op='gincl', g=ga, ranks=list(range(cut)), **{'from': src}))
+            S.append(dict(op='gincl', g=gb, ranks=list(range(cut, len(g))), **{'from': src}))
+            groups[ga], groups[gb] = g[:cut], g[cut:]
+            new = nslot[0]
+            nslot[0] += 1
+            gmap = [ga if w in g[:cut] else gb if w in g[cut:] else -1 for w in range(np_)]
+            S.append(dict(op='create', new=new, old=0, gmap=gmap))
+            comms[new] = [x for x in (g[:cut], g[cut:]) if x]
+        elif k == 'splitgrp':
+            cands = [c for c in sorted(comms) if c >= 2 and comms[c]]
+            if cands:
+                c = rs.choice(cands)
+                n = newg()
+                S.append(dict(op='cgroup', g=n, c=c))
+                S.append(dict(op='ginfo', g=n))
+                S.append(dict(op='gcmp', a=n, b=g0))
+                S.append(dict(op='ccmp', a=c, b=rs.choice(sorted(comms))))
+
+
+# ---------------------------------------------------------------------------------------------------------
+# shrinking
+# ---------------------------------------------------------------------------------------------------------
+def _copy(plan):
+    import json
+    return json.loads(json.dumps(plan))
+
+
+def _valid(p):
+    try:
+        validate(p)
+        return True
+    except (ValueError, KeyError, IndexError, AssertionError):
+        return False
+
+
+def shrink_candidates(plan):
+    items = plan['items']
+    n = len(items)
+    # 1. drop chunks of items, then single items
+    size = n // 2
+    while size >= 1:
+        for i in range(0, n, size):
+            p = _copy(plan)
+            del p['items'][i:i + size]
+            if p['items'] != items and _valid(p):
+                yield p
+        size //= 2
+    # 2. drop the last rank when nothing uses it
+    if plan['np'] > 1:
+        last = plan['np'] - 1
+        if not any((it['k'] == 'msg' and last in (it['s'], it['d'])) or (it['k'] == 'pack' and it['rank'] == last) for it in items):
+            p = _copy(plan)
+            p['np'] = last
+            p['hostmap'] = p['hostmap'][:last]
+            nh = max(p['hostmap']) + 1 if p['hostmap'] else 1
+            if p['plat']['kind'] == 'cluster':
+                p['plat']['nh'] = max(nh, 1)
+            for st in p['setup'] + [it['step'] for it in p['items'] if it['k'] == 'coll']:
+                for k in ('color', 'key', 'gmap'):
+                    if k in st:
+                        st[k] = st[k][:last]
+            if p.get('psm'):
+                p['psm'].pop(str(last), None)
+            for it in p['items']:
+                if it['k'] == 'barrier' and 't' in it:
+                    it['t'].pop(str(last), None)
+            if _valid(p):
+                yield p
+    # 3. drop setup steps
+    for i in range(len(plan['setup']) - 1, -1, -1):
+        p = _copy(plan)
+        del p['setup'][i]
+        if _valid(p):
+            yield p
+    # 4. remove think times, deferred waits, hoists, misalignment (all at once, then per message)
+    keys = ('ts', 'tr', 'hoist', 'mis', 'mir')
+    if any(it.get(k) for it in items for k in keys):
+        p = _copy(plan)
+        for it in p['items']:
+            for k in keys:
+                it.pop(k, None)
+        if _valid(p):
+            yield p
+    for i, it in enumerate(items):
+        if it['k'] != 'msg':
+            continue
+        for k in keys:
+            if it.get(k):
+                p = _copy(plan)
+                p['items'][i].pop(k)
+                if _valid(p):
+                    yield p
+        for k in ('sw', 'rw'):
+            if it.get(k):
+                p = _copy(plan)
+                p['items'][i][k] = 0
+                if _valid(p):
+                    yield p
+        for k in ('wks', 'wkr'):
+            if it.get(k):
+                p = _copy(plan)
+                p['items'][i][k] = 0
+                if _valid(p):
+                    yield p
+        if it.get('rm') in ('probe', 'iprobe'):
+            p = _copy(plan)
+            p['items'][i]['rm'] = 'recv'
+            if _valid(p):
+                yield p
+        if it.get('sm') in (4, 5, 6) and it.get('sw') in (0, None):
+            p = _copy(plan)
+            p['items'][i]['sm'] -= 4
+            p['items'][i].pop('sw', None)
+            if _valid(p):
+                yield p
+        if it.get('rm') == 'irecv' and it.get('rw') in (0, None) and it.get('rdy') is None:
+            p = _copy(plan)
+            p['items'][i]['rm'] = 'recv'
+            if _valid(p):
+                yield p
+    # 5. shrink sizes / simplify types
+    for i, it in enumerate(items):
+        if it['k'] == 'msg':
+            if isinstance(it['st'], str) and isinstance(it['rt'], str) and it['sc'] > 0:
+                for nsz in (0, 1, it['sc'] // 2, it['sc'] - 1):
+                    if nsz < it['sc']:
+                        p = _copy(plan)
+                        q = p['items'][i]
+                        extra = max(0, it['rc'] - it['sc']) if not it.get('trunc') else 0
+                        q['sc'] = nsz
+                        q['rc'] = nsz + extra if not it.get('trunc') else min(it['rc'], max(0, nsz - 1))
+                        if _valid(p):
+                            yield p
+            else:
+                for side, ck in (('st', 'sc'), ('rt', 'rc')):
+                    if not isinstance(it[side], str):
+                        ti = R.flatten(plan['types'][it[side]])
+                        p = _copy(plan)
+                        q = p['items'][i]
+                        q[side] = _base_of(plan['types'][it[side]])
+                        q[ck] = elems(ti) * it[ck]
+                        if side == 'st' and isinstance(q['rt'], str):
+                            q['rc'] = max(q['rc'], q['sc'])
+                        if _valid(p) and _sig_ok(p, q):
+                            yield p
+                for ck in ('sc',):
+                    if it[ck] > 0:
+                        p = _copy(plan)
+                        p['items'][i][ck] = it[ck] - 1
+                        if _valid(p):
+                            yield p
+        elif it['k'] == 'pack' and it['count'] > 1:
+            p = _copy(plan)
+            p['items'][i]['count'] = 1
+            yield p
+    # 6. replace a type by one of its subtrees
+    for ti_, t in enumerate(plan.get('types', [])):
+        subs = t[3] if t[0] == 'struct' else [t[1]] if t[0] == 'resized' else [t[-1]]
+        for sub in subs:
+            if sub[0] == 'b':
+                continue
+            p = _copy(plan)
+            p['types'][ti_] = sub
+            ok = True
+            for it in p['items']:
+                if it['k'] == 'msg' and (it['st'] == ti_ or it['rt'] == ti_) and not _sig_ok(p, it):
+                    ok = False
+            if ok and _valid(p):
+                yield p
+    # 7. simplify configuration and platform
+    base_cfg = ('smpi/async-small-thresh', 'smpi/send-is-detached-thresh', 'smpi/privatization', 'smpi/shared-malloc-blocksize')
+    for k in sorted(plan['cfg']):
+        if k not in base_cfg:
+            p = _copy(plan)
+            del p['cfg'][k]
+            yield p
+    if plan['plat']['kind'] != 'cluster' or len(plan['plat']) > 5:
+        p = _copy(plan)
+        p['plat'] = dict(kind='cluster', nh=plan['np'], speed=1e9, bw=125000000, lat=5e-5)
+        p['hostmap'] = list(range(plan['np']))
+        yield p
+    if plan.get('psm'):
+        for r in sorted(plan['psm']):
+            for side in ('s', 'r'):
+                sh = plan['psm'][r][side]['shared']
+                for j in range(len(sh)):
+                    if len(sh) > 1:
+                        p = _copy(plan)
+                        del p['psm'][r][side]['shared'][j]
+                        yield p
+
+
+def _sig_ok(plan, it):
+    try:
+        s = R.signature(R.flatten(tdesc(plan, it['st'])), it['sc'])
+        r = R.signature(R.flatten(tdesc(plan, it['rt'])), it['rc'])
+    except (IndexError, KeyError):
+        return False
+    return R.sig_prefix(s, r)
+
+
+# ---------------------------------------------------------------------------------------------------------
+# the check base class
+# ---------------------------------------------------------------------------------------------------------
+ALWAYS = ('abort', 'deadlock', 'log-desync', 'hang')
+
+
+class MpiCheck(dst.Check):
+    level = 'exploration'
+    prof = {}
+    own = ()            # violation class prefixes that belong to this property
+    max_reported = 6
+    shrink_budget = 250
+    real_vs_stub = {
+        'SMPI (matching, protocols, datatypes, communicators, shared malloc, privatization)': 'real',
+        'SimGrid kernel, network and CPU models, contexts': 'real',
+        'MPI application': 'stub: generated-plan interpreter sim/mpisim.c compiled with the tree\'s smpicc',
+        'platform': 'stub: generated XML (cluster or star), seeded latencies/bandwidths/speeds',
+        'launcher': 'real smpimain, invoked directly with the command line smpirun builds (smpirun itself bypassed)',
+    }
+    assumptions = [
+        'the interpreter (sim/mpisim.c) executes the plan faithfully and logs what MPI returned; it is part of the trusted base',
+        'wall-clock computation injection is off (smpi/simulate-computation:no) so that a plan is one repeatable execution',
+        'SMPI_PARTIAL_SHARED_MALLOC uses a /tmp backing file created and unlinked by SMPI itself (not by the framework)',
+        'lines of the log interleave in execution order because the kernel runs one rank at a time (sequential contexts)',
+    ]
+
+    def gen(self, seed, tier):
+        for attempt in range(20):
+            plan = gen_plan(seed + attempt * 7919, tier, self.prof)
+            try:
+                validate(plan)
+                return plan
+            except ValueError:
+                continue
+        raise dst.Infra('generator could not produce a deadlock-free plan for seed %d' % seed)
+
+    def run(self, plan, scratch):
+        try:
+            res = run_plan(plan, scratch)
+        except (ValueError, KeyError, IndexError) as e:
+            raise dst.Infra('malformed plan: %r' % (e,))
+        A = analyze(plan, res)
+        tail = [l for l in res['err'].split('\n') if l and 'Configuration change' not in l][-6:]
+        return dict(hash=dst.sha(res['log'], res['rc']), viol=[[c, m] for c, m in A.viol], stats=A.stats, sig=A.sig,
+                    complete=A.complete, rc=res['rc'], err_tail=tail, nlines=len(A.order))
+
+    def mine(self, cls):
+        return cls in ALWAYS or any(cls == o or cls.startswith(o) for o in self.own)
+
+    def oracle(self, plan, res):
+        seen = set()
+        out = []
+        for c, m in res['viol']:
+            if self.mine(c) and c not in seen:
+                seen.add(c)
+                out.append((c, m))
+        return out
+
+    def signature(self, plan, res):
+        return res['sig']
+
+    def stats(self, plan, res):
+        s = dict(res['stats'])
+        for c, _ in res['viol']:
+            if not self.mine(c):
+                s['foreign_' + c] = s.get('foreign_' + c, 0) + 1
+        s['runs_complete'] = 1 if res['complete'] else 0
+        return s
+
+    def shrink(self, plan):
+        return shrink_candidates(plan)
+
+    def describe(self, plan, res):
+        B = build(plan)
+        return dict(np=plan['np'], cfg=plan['cfg'], platform=plan['plat']['kind'], n_items=len(plan['items']),
+                    first_items=plan['items'][:4], rank0_ops=[' '.join([n] + [str(a) for a in args])[:80] for n, args, _ in B.ops[0][:25]],
+                    signature=res['sig'], log_lines=res['nlines'])
